@@ -2,7 +2,9 @@ package main
 
 import (
 	"bufio"
+	"bytes"
 	"fmt"
+	"github.com/tencent/goom/internal/arch/x86asm"
 	"os"
 	"reflect"
 	"strings"
@@ -49,6 +51,41 @@ func pagePerms(lo, hi uintptr) []string {
 }
 
 func c14Replacement(a int) int { return a + 1 }
+
+// c14Items: what the bundled decoder reports from start on, in the vocabulary of Model/FuncSize.v:
+// 0 = stop (error / lone prefix), 100+pn = INT3, 2*len+pn = ordinary instruction; pn = the function prologue follows
+func c14Items(start uintptr, max int) []int {
+	pro := bytecode.VerifFuncPrologue()
+	var items []int
+	pos, sawInt3 := 0, false
+	for len(items) < max {
+		code := memory.RawRead(start+uintptr(pos), 16)
+		inst, err := x86asm.Decode(code, 64)
+		if err != nil || (inst.Opcode == 0 && inst.Len == 1 && inst.Prefix[0] == x86asm.Prefix(code[0])) {
+			items = append(items, 0)
+			break
+		}
+		next := memory.RawRead(start+uintptr(pos+inst.Len), 16)
+		pn := 0
+		if bytes.Equal(pro, next[:len(pro)]) {
+			pn = 1
+		}
+		if inst.Len == 1 && code[0] == 0xcc {
+			items = append(items, 100+pn)
+			sawInt3 = true
+		} else {
+			items = append(items, inst.Len*2+pn)
+			if sawInt3 {
+				break
+			}
+		}
+		pos += inst.Len
+		if pn == 1 {
+			break
+		}
+	}
+	return items
+}
 
 func c14(args []string) int {
 	c, _ := parseCommon("c14", args)
@@ -328,6 +365,18 @@ func c14(args []string) int {
 		}
 		out.Put(map[string]interface{}{"kind": "extent_sweep", "functions": total, "equal": equal, "early_stop": early, "overrun": overrun,
 			"overrun_names": overruns, "too_short_but_accepted": tooShortAccepted})
+		// the model's input: what the decoder reports at each instruction start of a sample of functions, and the scanned size
+		var scans []map[string]interface{}
+		for i := 0; i+1 < len(tab.Funcs) && len(scans) < 700; i += 11 {
+			f := &tab.Funcs[i]
+			if next := tab.Funcs[i+1].Entry; next <= f.Entry || next-f.Entry > 1<<16 {
+				continue
+			}
+			bytecode.VerifClearFuncSizeCache()
+			size, _ := bytecode.GetFuncSize(64, uintptr(f.Entry), false)
+			scans = append(scans, map[string]interface{}{"name": f.Name, "items": c14Items(uintptr(f.Entry), 20000), "size": size})
+		}
+		out.Put(map[string]interface{}{"kind": "scans", "scans": scans})
 	} else {
 		out.Put(map[string]interface{}{"kind": "extent_sweep", "error": fmt.Sprint(err)})
 	}
